@@ -54,8 +54,7 @@ package flight12
 
 //@ func handleHelloResume
 //@ watch HandshakeConfig.GetSession
-//@ requires args: state != nil && state.Common != nil && cfg != nil && !isNil(cfg.Log)
-//@ requires store-configured: cfg.HasSessionStore ==> cfg.GetSession != nil
+//@ requires args: state != nil && cfg != nil
 //@ ensures outcomes: result0 == 0 || result0 == next || result0 == Flight4b
 //@ ensures resume-needs-known-session: result0 == Flight4b && next != Flight4b ==> called("HandshakeConfig.GetSession") && retErr("HandshakeConfig.GetSession", 2) == nil && !isNil(retBytes("HandshakeConfig.GetSession", 0))
 //@ ensures resume-needs-session-id: result0 == Flight4b && next != Flight4b ==> len(sessionID) > 0 && old(cfg.HasSessionStore)
